@@ -1,10 +1,12 @@
-(* C03 (sized types) — the image ptr.write stores for a well-typed emplacer expression of a sized
-   type, written over any previous buffer contents with any padding policy, validates, reads back
-   exactly the specified content, and changes nothing behind the value.
-   Pinned statements only; proofs in Proofs/EncFacts.v. *)
+(* C03 — emplace then read back.  Sized types: the image ptr.write stores for a well-typed emplacer
+   expression of a sized type, written over any previous buffer contents with any padding policy,
+   validates, reads back exactly the specified content, and changes nothing behind the value.
+   Every type (containers, unsized structs and enums, nested emplacers): an accepted new_in_place
+   validates, reads back exactly the specified content and measures the reference extent.
+   Pinned statements only; proofs in Proofs/EncFacts.v and Proofs/EmplaceUnsizedFacts.v. *)
 From Coq Require Import NArith List Bool.
 From Flatty.Model Require Import Base Ty Layout Validate View Emplace.
-From Flatty.Proofs Require Import EmplaceSpec EncFacts.
+From Flatty.Proofs Require Import EmplaceSpec EncFacts EmplaceUnsizedFacts.
 Open Scope N_scope.
 
 (* for every accepted sized definition and every expression that has an image: the image has
@@ -75,7 +77,64 @@ Example c03_example :
   view t (fst (emplace (Some 255) t IDefault 8 garbage)) = Ok (VNode 0 [VInt 0; VInt 0; VNode 0 []]).
 Proof. vm_compute. repeat split; reflexivity. Qed.
 
+(* every accepted definition (sized or not) whose length / tag types fit usize, every well-typed
+   emplacer expression whose string literals are UTF-8 (vec::FromArray, vec::FromIterator,
+   string::FromStr, flex::FromIterator, the generated Init types, Empty, the default emplacer,
+   nested to any depth), every padding policy, every address, every buffer with arbitrary previous
+   contents: when new_in_place accepts, the buffer keeps its length, the result passes validation,
+   the accessors return exactly the specified content and size() is the reference extent *)
+Theorem c03_emplace_reads_back : forall t i, wf t = true -> narrow_ty t = true ->
+  init_ok t i = true -> utf8_init i = true ->
+  forall pv a buf buf', new_in_place pv t i a buf = (buf', Ok tt) ->
+    blen buf' = blen buf /\
+    validate t a buf' = Ok tt /\
+    (exists v, view t buf' = Ok v /\ spec_value t i = Some (strip v)) /\
+    size_m t buf' = Ok (extent t i).
+Proof. exact emplace_reads_back. Qed.
+
+(* and it accepts every aligned buffer that can hold the content *)
+Theorem c03_emplace_accepts : forall t i, wf t = true -> narrow_ty t = true ->
+  init_ok t i = true -> utf8_init i = true ->
+  forall pv a buf,
+    snd (new_in_place pv t i a buf) = Ok tt <->
+    aligned a (align t) = true /\ representable t i = true /\ extent t i <= blen buf.
+Proof. exact emplace_ok_iff. Qed.
+
+(* non-vacuity (unsized): #[flat(sized = false)] struct { a: u32, v: FlatVec<u8, u16> } from a
+   literal, an unsized enum with a string payload, a FlexVec of unsized structs holding FlexVecs
+   of strings; over garbage, with both padding policies *)
+Example c03_example_unsized :
+  let u8i := {| isize := 1; ialign := 1; ibe := false |} in
+  let u16i := {| isize := 2; ialign := 2; ibe := false |} in
+  let u32i := {| isize := 4; ialign := 4; ibe := false |} in
+  let t1 := TStruct false (FCons (TInt u32i) (FCons (TVec (TInt u8i) u16i) FNil)) in
+  let i1 := ISeq [IInt 77; IVecArr [IInt 1; IInt 2; IInt 3]] in
+  let t2 := TEnum false u8i 0 (VCons FNil (VCons (FCons (TInt u16i) (FCons (TStr u8i) FNil)) VNil)) in
+  let i2 := IVar 1 [IInt 513; IStr [104; 105; 33]] in
+  let t3 := TFlex (TStruct false (FCons (TInt u16i) (FCons (TFlex (TStr u8i) u16i) FNil))) u16i in
+  let i3 := IFlex [ISeq [IInt 1; IFlex [IStr [65]; IStr []]]; IDefault; ISeq [IInt 3; IEmpty]] in
+  let g n := map (fun k => 100 + N.of_nat k) (seq 0 n) in
+  wf t1 = true /\ narrow_ty t1 = true /\ init_ok t1 i1 = true /\ utf8_init i1 = true /\ extent t1 i1 = 12 /\
+  new_in_place None t1 i1 4 (g 14%nat) = ([77;0;0;0; 3;0; 1;2;3; 109;110;111; 112;113], Ok tt) /\
+  validate t1 4 (fst (new_in_place None t1 i1 4 (g 14%nat))) = Ok tt /\
+  view t1 (fst (new_in_place None t1 i1 4 (g 14%nat))) = Ok (VNode 0 [VInt 77; VCont 6 [VInt 1; VInt 2; VInt 3]]) /\
+  size_m t1 (fst (new_in_place None t1 i1 4 (g 14%nat))) = Ok 12 /\
+  wf t2 = true /\ init_ok t2 i2 = true /\ utf8_init i2 = true /\ extent t2 i2 = 8 /\
+  new_in_place (Some 255) t2 i2 2 (g 9%nat) = ([1;101; 1;2; 3;104;105;33; 108], Ok tt) /\
+  validate t2 2 (fst (new_in_place (Some 255) t2 i2 2 (g 9%nat))) = Ok tt /\
+  (exists cap, view t2 (fst (new_in_place (Some 255) t2 i2 2 (g 9%nat))) =
+     Ok (VNode 1 [VInt 513; VCont cap [VInt 104; VInt 105; VInt 33]])) /\
+  wf t3 = true /\ narrow_ty t3 = true /\ init_ok t3 i3 = true /\ utf8_init i3 = true /\ extent t3 i3 = 24 /\
+  snd (new_in_place None t3 i3 2 (g 24%nat)) = Ok tt /\
+  validate t3 2 (fst (new_in_place None t3 i3 2 (g 24%nat))) = Ok tt /\
+  (exists v, view t3 (fst (new_in_place None t3 i3 2 (g 24%nat))) = Ok v /\ spec_value t3 i3 = Some (strip v)) /\
+  size_m t3 (fst (new_in_place None t3 i3 2 (g 24%nat))) = Ok 24 /\
+  (exists p, snd (new_in_place None t3 i3 2 (g 23%nat)) = Err InsufficientSize p).
+Proof. vm_compute. repeat split; try reflexivity; eexists; try split; reflexivity. Qed.
+
 Print Assumptions c03_sized_image_valid.
 Print Assumptions c03_sized_emplace.
 Print Assumptions c03_init_ok_enc.
 Print Assumptions c03_nonpad_independent.
+Print Assumptions c03_emplace_reads_back.
+Print Assumptions c03_emplace_accepts.
